@@ -305,7 +305,17 @@ func initExterns() {
 	externTable["github.com/iancoleman/strcase.ToLowerCamel"] = pure1("strcase.ToLowerCamel", strcase.ToLowerCamel)
 	externTable["github.com/iancoleman/strcase.ToSnake"] = pure1("strcase.ToSnake", strcase.ToSnake)
 	// ---- strings
-	externTable["strings.ToLower"] = pure1("strings.ToLower", strings.ToLower)
+	toLower := pure1("strings.ToLower", strings.ToLower)
+	externTable["strings.ToLower"] = func(e *Engine, s *State, x ssa.CallInstruction, fn *ssa.Function, args []Value) ([]*State, bool) {
+		// instances of the definition for the literals boolean options are compared with
+		if a := args[0][0]; a.K != KStrLit {
+			r := App("strings.ToLower", SStr, a)
+			for _, lit := range []string{"true", "false"} {
+				s.assume(Implies(Eq(a, Str(lit)), Eq(r, Str(lit))))
+			}
+		}
+		return toLower(e, s, x, fn, args)
+	}
 	externTable["strings.ToUpper"] = pure1("strings.ToUpper", strings.ToUpper)
 	externTable["strings.TrimSpace"] = pure1("strings.TrimSpace", strings.TrimSpace)
 	str2 := func(name string, conc func(a, b string) string) externSpec {
